@@ -88,7 +88,6 @@ MUTANTS = {
         ("minus-strand-insertion-anchor", "aldy/gene.py", '                        op = f"ins{rev_comp(op[3:])}"\n                        pos += 1', '                        op = f"ins{rev_comp(op[3:])}"'),
         ("deletion-anchor-in-realignment", "aldy/sam.py", "                    p -= 1\n                    o = self.gene[p]", "                    o = self.gene[p]"),
         ("minus-strand-mnp-anchor", "aldy/gene.py", "                        pos = pos + len(l) - 1", "                        pos = pos"),
-        ("major-novel-cheap", "aldy/profile.py", "        self.major_novel = 21.0", "        self.major_novel = 0.0"),
     ],
     "C02": [
         ("csat-lower-bound-dropped", "aldy/major.py", '        model.addConstr(expr >= cnt, name=f"CSAT_{cnf}")', '        model.addConstr(expr >= 0, name=f"CSAT_{cnf}")'),
